@@ -14,7 +14,7 @@ class C16(Plugin):
     header = "From HD Require Import common.Base dns.Model dns.Spec dns.Corr.\nOpen Scope N_scope."
     design_ref = "DESIGN.md section 4 C16, 3.3"
     rule = ("case = (entry point, preference/binding, sort flag, URI port, address list); addresses are "
-            "(family, id, port) mapped injectively to real SocketAddrs (IPv6 ids also carry scope_id and flowinfo); non-trivial = list contains both "
+            "(family, id, port) mapped injectively to real SocketAddrs (IPv6 ids also carry scope_id and flowinfo; ids 48..63 are IPv4-mapped IPv6 addresses); non-trivial = list contains both "
             "families or duplicates; distinct = distinct case tuples")
     trusted = [
         "hook: hyperdriver::verif_hooks::sort_preferred and TcpTransport::verif_attempt_order (feature verif-hooks) call the crate-private SocketAddrs::{set_port,sort_preferred,pop} and TcpTransport::connecting unchanged",
@@ -41,6 +41,11 @@ class C16(Plugin):
             bias = rng.choice([0.1, 0.5, 0.9])
             addrs = [[4 if rng.random() < bias else 6, ids[i], rng.choice([0, 80, 443, 65535, rng.randint(0, 65535)])]
                      for i in range(n)]
+            if rng.random() < 0.3:
+                # IPv4-mapped IPv6 addresses (::ffff:a.b.c.d) are IPv6 socket addresses: ids 48..63
+                for a in addrs:
+                    if a[0] == 6 and rng.random() < 0.5:
+                        a[1] = 48 + a[1] % 16
             if rng.random() < 0.4:
                 # zoned / flow-labelled IPv6 addresses (scope_id, flowinfo) are distinct addresses: id carries them
                 for a in addrs:
